@@ -691,6 +691,28 @@ func (g *Gen) Step() {
 			}
 		}
 		x.Apply(Op{K: KBlock, Dt: g.dt(), Fees: g.fees()})
+		if g.pct("quiet-status", 35) {
+			// a validator's bond status changes (jail / unjail / validator-set size) and nothing else
+			var jailed, free []int
+			for i, v := range x.Post().Vals {
+				if v.Jailed {
+					jailed = append(jailed, i)
+				} else {
+					free = append(free, i)
+				}
+			}
+			switch {
+			case len(jailed) > 0 && g.pct("unjail", 60):
+				x.Apply(Op{K: KUnjail, V: jailed[g.intn("jv", len(jailed))]})
+			case g.pct("maxvals", 30):
+				x.Apply(Op{K: KMaxVals, N: 3 + g.intn("maxvals", 4)})
+			case len(free) > 1:
+				x.Apply(Op{K: KJail, V: free[g.intn("fv", len(free))]})
+			}
+			x.Apply(Op{K: KBlock, Dt: g.dt()})
+			x.Apply(Op{K: KBlock, Dt: g.dt()})
+			return
+		}
 		if len(have) == 0 || g.pct("quiet-delegate", 30) {
 			x.Apply(Op{K: KNatDel, D: g.intn("nd", 2), V: g.intn("v", nv), Amt: new(big.Int).Mul(big.NewInt(int64(g.intn("m", 9)+1)), pow10(6+g.intn("k", 4))).String()})
 		} else {
